@@ -22,6 +22,9 @@ func collConfig(r *rng, mode string) (Config, genOpts) {
 	case "flat-nomerge":
 		o.mergeW = 0
 	case "flat":
+	case "nilmerge":
+		o.nilMerge = true
+		o.mergeW = 35
 	case "tree":
 		o.childPct = 45
 		if cfg.LL == "map" {
